@@ -17,6 +17,7 @@ use crate::{
         time::Time,
     },
     rtps::stateful_writer::RtpsStatefulWriter,
+    transport::types::Guid,
     xtypes::dynamic_type::DynamicData,
 };
 use alloc::{string::String, vec::Vec};
@@ -97,6 +98,26 @@ impl UserDefinedDataWriter {
 
         self.publication_matched_status.current_count = self.matched_subscription_list.len() as i32;
         self.publication_matched_status.current_count_change -= 1;
+
+        // The reader is gone: stop sending to it and stop waiting for its acknowledgments
+        self.writer
+            .transport_writer
+            .delete_matched_reader(Guid::from(<[u8; 16]>::from(*subscription_handle)));
+        self.notify_if_all_acknowledged();
+    }
+
+    /// Release the callers of wait_for_acknowledgments if no matched reliable reader is left
+    /// with unacknowledged changes (e.g. because the last unresponsive reader was removed).
+    pub fn notify_if_all_acknowledged(&mut self) {
+        if self
+            .writer
+            .transport_writer
+            .is_change_acknowledged(self.writer.last_change_sequence_number)
+        {
+            for n in self.wait_for_acknowledgments_notification.drain(..) {
+                n.send(Ok(()));
+            }
+        }
     }
 
     pub fn get_offered_deadline_missed_status(&mut self) -> OfferedDeadlineMissedStatus {
